@@ -327,10 +327,6 @@ theorem specDissect_none_iff (p : Pat) (line : Bytes) :
 
 /-! ### `{0}` is the pattern with the token texts filled in -/
 
-/-- the pattern text with the token texts `vs` substituted for the tokens -/
-def instantiate (p : Pat) (vs : List Bytes) : Bytes :=
-  p.pre ++ ((vs.zip p.toks).map fun vt => vt.1 ++ vt.2.lit).flatten
-
 /-- the token texts of a split -/
 def valuesOf (line : Bytes) : List Tok → Nat → List Nat → List Bytes
   | t :: ts, pos, n :: ns => (line.drop pos).take n :: valuesOf line ts (pos + n + t.lit.length) ns
@@ -463,5 +459,65 @@ theorem specDissect_take_append {p : Pat} {line : Bytes} {s e : Nat} {caps : Lis
       rw [firstIndex_take_append x hs hle hord.2]
       simp only []
       rw [specToks_take_append x hlit hrec hlen (Nat.le_refl _) hord.2]
+
+
+/-! ### extending a pattern at the end -/
+
+/-- the scan over `ts ++ us` is the scan over `ts` followed by the scan over `us` from where it ended -/
+theorem specToks_append (line : Bytes) (ts us : List Tok) (pos : Nat) :
+    specToks line (ts ++ us) pos =
+      match specToks line ts pos with
+      | none => none
+      | some ce => (specToks line us ce.2).map fun ce' => (ce.1 ++ ce'.1, ce'.2) := by
+  induction ts generalizing pos with
+  | nil =>
+    simp only [List.nil_append, specToks]
+    cases specToks line us pos with
+    | none => rfl
+    | some ce' => simp
+  | cons t ts ih =>
+    simp only [List.cons_append, specToks]
+    cases (if t.lit = [] then some (line.drop pos).length else firstIndex t.lit (line.drop pos)) with
+    | none => rfl
+    | some n =>
+      simp only []
+      rw [ih]
+      cases specToks line ts (pos + n + t.lit.length) with
+      | none => rfl
+      | some ce =>
+        simp only []
+        cases specToks line us ce.2 with
+        | none => rfl
+        | some ce' => simp [List.append_assoc]
+
+/-- **More tokens at the end of a pattern never change what the earlier tokens capture**: when the
+longer pattern matches, the shorter one matches too, with the same start and the same captures;
+only the end of `{0}` moves (to the right). -/
+theorem specDissect_append {pre : Bytes} {ts us : List Tok} {line : Bytes} {r' : List Nat}
+    (h : specDissect ⟨pre, ts ++ us⟩ line = some r') :
+    ∃ s e e' caps more, specDissect ⟨pre, ts⟩ line = some (s :: e :: caps) ∧
+      r' = s :: e' :: (caps ++ more) ∧ e ≤ e' := by
+  simp only [specDissect] at h ⊢
+  split at h
+  · cases h
+  · rename_i s hs
+    rw [specToks_append] at h
+    have ⟨_, hlen⟩ := firstIndex_some_prefix hs
+    cases h1 : specToks line ts (s + pre.length) with
+    | none => rw [h1] at h; simp at h
+    | some ce =>
+      obtain ⟨caps, e⟩ := ce
+      rw [h1] at h
+      simp only [] at h
+      cases h2 : specToks line us e with
+      | none => rw [h2] at h; simp at h
+      | some ce' =>
+        obtain ⟨more, e'⟩ := ce'
+        rw [h2] at h
+        simp only [Option.map_some, Option.some.injEq] at h
+        have he := (specToks_ordered h1 hlen).2
+        have hord := (specToks_ordered h2 he).1
+        have hle : e ≤ e' := List.rel_of_pairwise_cons hord (by simp)
+        exact ⟨s, e, e', caps, more, by simp, h.symm, hle⟩
 
 end Rare.C12
